@@ -76,7 +76,21 @@ def uvl_names():
             st.sampled_from("日本語\U0001f600\U00010348")),
         min_size=1, max_size=8).map(_no_lead_apostrophe)
     return st.one_of(ident_names(), st.sampled_from(UVL_KEYWORDS), st.sampled_from(OPERATOR_WORDS),
-                     st.sampled_from(ODD_UVL), free, unicode_identifier_like(), dict_names(_text_ok))
+                     st.sampled_from(ODD_UVL), free, unicode_identifier_like(), dict_names(_text_ok), line_like_names('".'))
+
+
+LINE_LIKE = "\t\x0b\x0c\x1c\x1d\x1e\x85\u2028\u2029\x00\x1b\x7f\u00a0\u200b\ufeff"
+
+
+def line_like_names(forbidden):
+    """Names carrying characters that text utilities treat as line breaks or blanks (str.splitlines, str.split,
+    textwrap, regex \\s) although the format's quoted-name token carries them like any other character; plus, rarely,
+    completely arbitrary text minus `forbidden`, CR/LF and surrogates."""
+    ch = st.sampled_from([c for c in LINE_LIKE if c not in forbidden])
+    built = st.builds(lambda a, c, b: a + c + b, st.sampled_from(["", "a", "x y"]), ch, st.sampled_from(["", "b", "1"]))
+    free = st.text(alphabet=st.characters(blacklist_categories=("Cs",), blacklist_characters=forbidden + "\r\n"),
+                   min_size=1, max_size=5)
+    return st.one_of(built, built, free).map(_no_lead_apostrophe)
 
 
 def unicode_names(extra_pool=()):
@@ -109,7 +123,11 @@ def xml_names():
     free = st.text(alphabet=st.characters(blacklist_categories=("Cs", "Cc", "Cn"),
                                           blacklist_characters="\ufffe\uffff\u2028\u2029\x85"),
                    min_size=1, max_size=8).map(_no_lead_apostrophe)
-    return st.one_of(ident_names(), st.sampled_from(pool), free, unicode_identifier_like(), dict_names(_text_ok)).map(
+    # XML 1.0 Char = #x9 | #xA | #xD | [#x20-#xD7FF] | [#xE000-#xFFFD] | [#x10000-#x10FFFF]: tab, LF, CR, DEL, C1 controls
+    # and the Unicode line separators are representable (as character references where a parser would normalise them)
+    ws = st.builds(lambda a, c, b: a + c + b, st.sampled_from(["", "a", "x y"]),
+                   st.sampled_from("\t\n\r\x85\u2028\u2029\x7f\x80\u00a0\u200b\ufeff"), st.sampled_from(["", "b", "1"]))
+    return st.one_of(ident_names(), st.sampled_from(pool), free, unicode_identifier_like(), dict_names(_text_ok), ws).map(
         lambda s: s.replace(".", "·"))
 
 
@@ -267,6 +285,10 @@ def expr_of_depth(draw, names, ops, depth):
         return ["T", draw(st.sampled_from(list(names)))]
     if depth >= 2 and "AND" in ops and "IMPLIES" in ops and draw(st.integers(0, 11)) == 0:
         return _near_symmetric(draw, names, ops, depth)
+    if depth >= 1 and draw(st.integers(0, 9)) == 0:
+        return _simple_like(draw, names, ops, depth)
+    if depth >= 2 and "AND" in ops and "OR" in ops and draw(st.integers(0, 11)) == 0:
+        return _clause_like(draw, names, ops, min(depth, 4))
     pool = list(ops) + (["NOT", "NOT"] if "NOT" in ops else [])
     op = draw(st.sampled_from(pool))
     if op == "NOT":
@@ -298,6 +320,33 @@ def _perturb(draw, e, names):
             return ["T", new_name] if i == target else x
         return [x[0]] + [rec(sub) for sub in x[1:]]
     return rec(e)
+
+
+def _literal(draw, names, ops):
+    t = ["T", draw(st.sampled_from(list(names)))]
+    return ["NOT", t] if "NOT" in ops and draw(st.booleans()) else t
+
+
+def _simple_like(draw, names, ops, depth):
+    """One binary operator over two (possibly negated) literals, sometimes under a NOT: the neighbourhood of the
+    forms the library pattern-matches as requires/excludes (A => B, !A | B, !A | !B, A => !B, ...), where writers
+    take short cuts."""
+    binary = [o for o in ops if o != "NOT"]
+    if not binary:
+        return _literal(draw, names, ops)
+    e = [draw(st.sampled_from(binary)), _literal(draw, names, ops), _literal(draw, names, ops)]
+    if depth >= 2 and "NOT" in ops and draw(st.integers(0, 3)) == 0:
+        return ["NOT", e]
+    return e
+
+
+def _clause_like(draw, names, ops, depth):
+    """AND/OR-only trees over literals (OR above OR above AND and the like): the shapes on which CNF conversion
+    has work to do."""
+    if depth <= 0 or draw(st.integers(0, 5)) == 0:
+        return _literal(draw, names, ops)
+    op = draw(st.sampled_from(["AND", "OR", "OR"]))
+    return [op, _clause_like(draw, names, ops, depth - 1), _clause_like(draw, names, ops, depth - 1)]
 
 
 def _near_symmetric(draw, names, ops, depth):
@@ -519,7 +568,10 @@ def afm_value_specs():
     dbl = st.builds(lambda a, b: f"{a}.{b}", st.integers(1, 999), st.text(alphabet=string.digits, min_size=1, max_size=3))
     strs = st.text(alphabet=st.sampled_from(string.ascii_letters + string.digits + " _-+*/.,:;()[]{}<>=!?#%&'|@^~\\"),
                    max_size=6).map(lambda s: '"' + s + '"')
-    return st.one_of(word, lower, ints, dbl, strs, st.sampled_from(['"é ñ"', '"日本"']))
+    # the STRING token carries every character but the double quote (probed: line breaks and control characters too)
+    wild = st.one_of(line_like_names('"'), st.sampled_from(["a\nb", "\r\n", "x\ry", "// c", "/* c */", "a;b", "%"])).map(
+        lambda s: '"' + s + '"')
+    return st.one_of(word, lower, ints, dbl, strs, st.sampled_from(['"é ñ"', '"日本"']), wild)
 
 
 def _afm_attrs(draw, fname):
@@ -558,7 +610,7 @@ def uvl_strings():
     alphabet = st.one_of(st.sampled_from(string.ascii_letters + string.digits + " _-+*/,:;()[]{}<>=!?#%&|@^~\"\\"),
                          st.characters(min_codepoint=0xA1, max_codepoint=0x2FFF,
                                        blacklist_categories=("Cc", "Cs", "Cn", "Zl", "Zp", "Cf", "Co")))
-    return st.one_of(st.text(alphabet=alphabet, min_size=1, max_size=8),
+    return st.one_of(st.text(alphabet=alphabet, min_size=1, max_size=8), line_like_names("'."),
                      st.sampled_from(["see // the manual", "a // b", "/* c */", "x /* y", "http://h/a//b", "{k 1}", "[1,2]",
                                       "features", "\\", "a\tb"]))
 
